@@ -326,3 +326,30 @@ MANIFEST_TEXT["C01"]["text"] = MANIFEST_TEXT["C01"]["text"].replace(
     "referenced twice in its graph")
 MANIFEST_TEXT["C01"]["note"] = ("Document -> dataset (json-gold) is not modelled; it is covered by the facts predicate against the abstract document. The parent-chain part of a key (entries_pred_chain) "
                                 "is covered by the correspondence + direct predicate, not by a theorem.")
+
+# ---- revision of 2026-09-26 (second session): new theorems and model parts ----
+MANIFEST_TEXT["C01"]["text"] = MANIFEST_TEXT["C01"]["text"].replace(
+    "a subject referenced twice in its graph",
+    "the string parts of a key are the expanded property IRIs along the chain of unique referrers (entries_pred_chain: the i-th entry belongs to the i-th literal/IRI quad and its key, positions "
+    "erased, is the predicates of the reference chain from a top-level node down to the quad plus the quad's own predicate; parent_map_spec: the parent map is findParent quad by quad; "
+    "referrer_unique: findParent returns the unique referrer or none); node siblings are numbered 0..m-1 by first appearance (node_sibling_positions); a subject referenced twice in its graph", 1)
+MANIFEST_TEXT["C01"]["text"] = MANIFEST_TEXT["C01"]["text"].replace(
+    "(multi_parent_findParent, relGraph_error)", "(multi_parent_findParent, relGraph_error), lifted to the whole run: entries is an error for every order of the graph map (multi_parent_rejected, self_reference_rejected_entries)")
+MANIFEST_TEXT["C01"]["note"] = ("Document -> dataset (json-gold's expansion and URDNA2015 normalisation) is not modelled; it is covered by the facts predicate against the abstract document. "
+                                "Graph names are assumed distinct in entries_pred_chain (they are the keys of a Go map).")
+MANIFEST_TEXT["C03"]["text"] = MANIFEST_TEXT["C03"]["text"].replace(
+    "The model's entries/root are functions of the dataset (determinism by construction).",
+    "The order in which Go's map hands out the graphs of the dataset changes neither the entries nor their order nor the error class nor the merklizer "
+    "(entries_map_order_irrelevant, merklize_map_order_irrelevant: every function of the model commutes with permutations of a dataset with distinct graph names).")
+EXTRA_TEXT = {
+    "C04": " The day count behind the Unix time is the Gregorian calendar's for every year: epoch_day, next_day_same_month, next_day_month_rollover, next_day_year_rollover (omega).",
+    "C05": " claim_inj: two successful builds yielding the same claim had the same schema hash, subject position and identifier, expiration, flags, version, nonce and (merklized) root.",
+    "C11": " On documents whose nodes carry no types (all scoping by property) the document-side resolver, the context-side resolver and the specification of expansion give the same path whenever "
+           "two of them give one, at any depth and with positions (doc_eq_stored_partial, ctx_eq_doc_partial); the unrestricted statement is false of the code (d8_counterexample).",
+    "C19": " The loader model includes rel=\"alternate\" links (Origin.alt, recursion bounded by maxHops = the repaired code's bound): the invariant, load_fresh (returned document is Allowed: current - "
+           "directly or through the page's link -, fresh storable, embedded), only_storable_received, failure_not_returned hold for every hop count; alternate_loop_is_error (defect D19, fixed) and "
+           "alternate_page_reuses_target_document (known finding F9) are proved witnesses.",
+    "C07": " Known finding F8: status nonces are read back through float64 inside VerifyProof; the model receives the nonce as the verifier reads it (oracle column).",
+}
+for _pid, _t in EXTRA_TEXT.items():
+    MANIFEST_TEXT[_pid]["text"] = MANIFEST_TEXT[_pid]["text"] + _t
